@@ -98,7 +98,7 @@ func init() {
 			"number vs string pairs are asserted for every number below 1e15 in magnitude; the decimal text is the plain positional one (1000000, 0.0000001), never an exponent form",
 		},
 		MinNontrivial: 1000,
-		Floor:         []string{"num-num.same-type", "num-num.mixed-type", "num-num.signed-unsigned", "num-num.int-float", "str-str", "num-str", "str-num", "triple.num", "triple.str", "sql.where", "sql.in", "sql.in.long", "sql.between", "sql.order", "sql.order.second-key", "sql.join.hash", "sql.join.loop", "sql.join.mixed-type", "sql.join.num-str"},
+		Floor:         []string{"num-num.same-type", "num-num.mixed-type", "num-num.signed-unsigned", "num-num.int-float", "str-str", "num-str", "str-num", "triple.num", "triple.str", "sql.where", "sql.where.twin-constant", "sql.in", "sql.in.long", "sql.between", "sql.order", "sql.order.second-key", "sql.order.num-str", "sql.join.hash", "sql.join.loop", "sql.join.mixed-type", "sql.join.num-str"},
 		Phases: []fw.Phase{
 			{Name: "pairs", N: func(t fw.Tier) int { return nPairs() }, Run: c15Pair, Batch: 0},
 			{Name: "sql", N: func(t fw.Tier) int { return pick(t, 1200, 20000) }, Run: c15SQL},
@@ -355,10 +355,26 @@ func c15SQL(c *fw.Case) {
 		lit := c15SQLNums[c.Intn(len(c15SQLNums))]
 		op := []string{"=", "<", ">=", "!=", "<=", ">"}[c.Intn(6)]
 		sql := fmt.Sprintf("SELECT id FROM lt WHERE k %s %v", op, lit)
+		// the same digits once more as a string constant of the same statement,
+		// evaluated first: each constant keeps its own kind
+		twin := c.Chance(0.3)
+		litText := fmt.Sprint(lit)
+		if twin {
+			sql = fmt.Sprintf("SELECT id FROM lt WHERE k = '%s' OR k %s %v", litText, op, lit)
+			c.Feature("sql.where.twin-constant")
+		}
 		var want []any
 		for _, r := range lt {
 			w := exactLit(keyOf(r), lit)
-			if map[string]bool{"=": w == 0, "<": w < 0, ">=": w >= 0, "!=": w != 0, "<=": w <= 0, ">": w > 0}[op] {
+			keep := map[string]bool{"=": w == 0, "<": w < 0, ">=": w >= 0, "!=": w != 0, "<=": w <= 0, ">": w > 0}[op]
+			if twin && !keep {
+				ws, ok, _ := c15Expect(keyOf(r), litText)
+				if !ok {
+					outOfDomain = true
+				}
+				keep = ws == 0
+			}
+			if keep {
 				want = append(want, r.(map[string]any)["id"])
 			}
 		}
@@ -449,6 +465,17 @@ func c15SQL(c *fw.Case) {
 		c15SQLCheck(c, doc(), sql, want, "id", false)
 	case 2: // ORDER BY (numbers only: a total order there)
 		lt = mk(3+c.Intn(8), false)
+		if c.Chance(0.4) {
+			// strings that begin with a letter sort after every number's decimal
+			// text (digits and the minus sign come before letters): together
+			// with the numbers they still form one total order
+			for _, r := range lt {
+				if c.Chance(0.35) {
+					r.(map[string]any)["k"] = gen.Pick(c.R, []any{"A-17", "x", "abc", "B", "a", "Zed"})
+				}
+			}
+			c.Feature("sql.order.num-str")
+		}
 		desc := c.Chance(0.5)
 		sql := "SELECT id, k FROM lt ORDER BY k"
 		if desc {
